@@ -7,7 +7,9 @@ table.
 * `rowNumber`     ↔ `row_number(y, horizontal)`: the row / grid line of the *original* grid that line
                      `y` of the fragment shows: the repeated header keeps its own rows **and the line
                      under it** (`y < header_rows + int(horizontal)`), the repeated footer its rows and
-                     the line above it, the body rows are shifted by `skipped_rows − header_rows`
+                     the lines from its top edge down (`y >= grid_height - footer_rows`, for rows and
+                     for lines alike since the repair 4d1447f), the body rows are shifted by
+                     `skipped_rows − header_rows`
 * `halfMaxWidth`  ↔ `half_max_width(border_list, yx_pairs, vertical)`
 * `addVertical`, `addHorizontal` ↔ `add_vertical(x, y)`, `add_horizontal(x, y)` (skipped for width 0,
                      transparent colour, and for the first / last line of a fragment whose first / last
@@ -69,7 +71,7 @@ def b2i (b : Bool) : Int := if b then 1 else 0
 /-- `row_number(y, horizontal)`. -/
 def rowNumber (d : DrawIn) (y : Int) (horizontal : Bool) : Int :=
   if d.headerRows ≠ 0 ∧ y < (d.headerRows : Int) + b2i horizontal then y
-  else if d.footerRows ≠ 0 ∧ y ≥ (gridHeight d : Int) - (d.footerRows : Int) - b2i horizontal then
+  else if d.footerRows ≠ 0 ∧ y ≥ (gridHeight d : Int) - (d.footerRows : Int) then
     y + footerOffset d
   else y + bodyOffset d
 
